@@ -740,6 +740,52 @@ func c01StatScenario(dotu bool) Scenario {
 				}
 			}
 		}
+		// stat records at the limit of the 16-bit size field: total length 65534..65537
+		// bytes (size field 65532..65535), alone and followed by a small record
+		{
+			base := wire.Stat{Type: 1, Dev: 2, Qid: wire.Qid{Type: 0x80, Vers: 3, Path: 4}, Mode: 0x800001ed, Atime: 5, Mtime: 6, Length: 7, Uid: "u", Gid: "g", Muid: "m", NUid: 8, NGid: 9, NMuid: 10}
+			empty := len(wire.EncodeStat(&base, dotu))
+			small := base
+			small.Name = "next"
+			smallB := wire.EncodeStat(&small, dotu)
+			small.Size = uint16(len(smallB) - 2)
+			for total := 65534; total <= 65537; total++ {
+				for _, field := range []string{"name", "muid"} {
+					st := base
+					long := strings.Repeat("L", total-empty)
+					if field == "name" {
+						st.Name = long
+					} else {
+						st.Muid = "m" + long
+					}
+					want := wire.EncodeStat(&st, dotu)
+					st.Size = uint16(len(want) - 2)
+					res.Evals++
+					res.Nontrivial++
+					got := go9p.PackDir(toDir(&st), dotu)
+					if !bytes.Equal(got, want) {
+						fail("C01/packdir/bytes-at-size-limit", fmt.Sprintf("PackDir of a %d-byte stat record differs from the layout at byte %d", len(want), firstDiff(got, want)))
+						continue
+					}
+					in := append(append([]byte{}, got...), smallB...)
+					d, b, amt, err := go9p.UnpackDir(in, dotu)
+					if err != nil {
+						fail("C01/unpackdir/rejected-at-size-limit", fmt.Sprintf("UnpackDir rejects a %d-byte stat record PackDir built: %v", len(want), err))
+						continue
+					}
+					if amt != len(want) || len(b) != len(smallB) {
+						fail("C01/unpackdir/consumed-at-size-limit", fmt.Sprintf("UnpackDir consumed %d bytes (rest %d) for a %d-byte record followed by a %d-byte one", amt, len(b), len(want), len(smallB)))
+						continue
+					}
+					if df := cmpDir(&st, d, dotu, true); df != "" {
+						fail("C01/unpackdir/fields-at-size-limit", "decoded stat differs: "+df)
+					}
+					if d2, b2, amt2, err := go9p.UnpackDir(b, dotu); err != nil || amt2 != len(smallB) || len(b2) != 0 || cmpDir(&small, d2, dotu, true) != "" {
+						fail("C01/unpackdir/next-record-at-size-limit", fmt.Sprintf("the record behind a %d-byte one does not decode (err %v, consumed %d)", len(want), err, amt2))
+					}
+				}
+			}
+		}
 		// payloads that already live in the message's own buffer (a file server reading
 		// straight into the reply buffer, a client building a Twrite in place): at the
 		// payload's final position, and further on in the buffer
@@ -779,7 +825,7 @@ func c01StatScenario(dotu bool) Scenario {
 				}
 			}
 		}
-		res.Samples = append(res.Samples, "PackDir/UnpackDir over the stat domains alone and in concatenations of up to 3; payloads aliasing the message's own buffer; InitRread(n)+SetRreadCount(c) for all c<=n<=24, in every order with SetTag before/after and a second lower count")
+		res.Samples = append(res.Samples, "PackDir/UnpackDir over the stat domains alone and in concatenations of up to 3; payloads aliasing the message's own buffer; stat records of 65534..65537 bytes; InitRread(n)+SetRreadCount(c) for all c<=n<=24, in every order with SetTag before/after and a second lower count")
 		return res
 	}}
 }
